@@ -1,6 +1,7 @@
 """C02 — partial: restart-flag kernel (K5: requires/constrains constructors) and watch-list kernel (K6)."""
 from common import Harness, source_lines
 from kani_prop import MAPPING_SCALE, Attach, run_incrate, replay_incrate
+from cert_prop import CERT_ASSUMPTIONS, cert_extra, is_cert_replay, replay_cert
 
 PROP = "C02"
 K5 = "k5_requires.rs"
@@ -135,9 +136,15 @@ RULE = ("one evaluation = one CBMC property decided SUCCESS in a SUCCESSFUL harn
 
 
 def run(tier, seed, only):
-    return run_incrate(PROP, tier, seed, only, attaches(tier, seed), harnesses(tier, seed), functions(), ASSUMPTIONS, [], RULE,
-                       scalings=[MAPPING_SCALE])
+    note = ["end-to-end part (certificate engine): per universe z3 decides (a) whether ANY valid selection exists and compares with the verdict, (b) that every emitted problem clause is implied by Spec(U) (no valid solution is excluded), (c) that every learnt clause is implied by the clauses allocated before it; universes are enumerated, not symbolic; verdict independence from orderings is exercised only through the shuffled listing/rank orders of the generator"]
+    fns = ["src/solver/mod.rs: solve/run_sat/propagate/learn_from_conflict/analyze/analyze_unsolvable (executed natively; verdict and learnt clauses certified by z3)",
+           "src/solver/encoding.rs (executed natively; emitted clauses checked for soundness against Spec(U))"]
+    return run_incrate(PROP, tier, seed, only, attaches(tier, seed), harnesses(tier, seed), functions() + fns,
+                       ASSUMPTIONS + CERT_ASSUMPTIONS + note, [], RULE + "; certificate engine: one evaluation = one z3 query; a universe is non-trivial for C02 when the verdict was Unsolvable or at least one clause was learnt",
+                       scalings=[MAPPING_SCALE], extra=None if only else cert_extra(PROP, tier, seed))
 
 
 def replay(path):
+    if is_cert_replay(path):
+        return replay_cert(PROP, path)
     return replay_incrate(PROP, path, attaches(), scalings=[MAPPING_SCALE])
